@@ -693,11 +693,25 @@ def abmd_part(run, r, runner, n):
         cases.append({"k": kk, "dec": dec, "stop": stop, "xs": xs})
     scn, ml = [], []
     for k, c in enumerate(cases):
-        scn += ["echo CASE %d" % k, "natoms 1", "new", "config EOF"] + colvar_block(0, {"w": 1.0, "per": False}) + [
+        conf = ["config EOF"] + colvar_block(0, {"w": 1.0, "per": False}) + [
             "abmd {", "  name r", "  colvars v0", "  forceConstant %r" % c["k"], "  stoppingValue %r" % c["stop"],
-            "  decreasing %s" % ("on" if c["dec"] else "off"), "}", "EOF", "show atomf 0 cv 0 energy 0 bias 0"]
-        for x in c["xs"]:
+            "  decreasing %s" % ("on" if c["dec"] else "off"), "}", "EOF"]
+        scn += ["echo CASE %d" % k, "natoms 1", "new"] + conf + ["show atomf 0 cv 0 energy 0 bias 0"]
+        # some steps are computed again at a run boundary or after save / new process / load: the ratchet must not move
+        seg = r.choice(["none", "B", "R", "BR"])
+        xs2 = []
+        for i, x in enumerate(c["xs"]):
             scn += ["pos 1 0 0 %s" % hx(x), "step", "rdump"]
+            xs2.append(x)
+            if seg != "none" and i > 0 and r.random() < 0.3:
+                if r.choice(list(seg)) == "B":
+                    scn += ["runboundary", "step", "rdump"]
+                else:
+                    f = os.path.join(runner.scratch, "ab%d_%d.state" % (k, i))
+                    scn += ["save %s %s" % (r.choice(["text", "binary"]), f), "fresh"] + conf + ["load %s" % f, "step", "rdump"]
+                xs2.append(x)
+        c["xs"] = xs2
+        c["seg"] = seg
         scn.append("echo END %d" % k)
         ml.append("ABMD %s %s %d %d %s" % (hx(c["k"]), hx(c["stop"]), c["dec"], len(c["xs"]), " ".join(hx(x) for x in c["xs"])))
     rc, mout, e = V.run_lines(runner.model, ml)
@@ -706,8 +720,8 @@ def abmd_part(run, r, runner, n):
     for k, c in enumerate(cases):
         cs = impl.get(k)
         run.dist("abmd")
-        if cs is None or not cs["complete"] or len(cs["steps"]) != len(c["xs"]):
-            run.mismatch("abmd", c, (cs or {}).get("raw", [])[-3:], "complete run")
+        if cs is None or not cs["complete"] or len(cs["steps"]) != len(c["xs"]) or any("err=ok" not in l for l in cs["config"]):
+            run.mismatch("abmd", c, ((cs or {}).get("config", []) + (cs or {}).get("raw", []))[-3:], "complete run")
             continue
         mo = [[float.fromhex(t) for t in part.split()] for part in mout[k].split(" ; ")] if k < len(mout) else []
         ref = None
@@ -1049,7 +1063,7 @@ def check(run):
                           {"kind": "scenario", "case": c, "scenario": scenario(c, 0, "."), "model_case": mlines[k]})
 
     # ---- generated scenarios (corpus first)
-    n = 260 if quick else 6000
+    n = 260 if quick else 20000
     cases = load_corpus() + [gen_case(r, k, quick) for k in range(n)]
     B = 130
     nmis = 0
@@ -1088,9 +1102,9 @@ def check(run):
                 run.violation(sig, text, {"kind": "scenario", "case": c, "scenario": scenario(c, 0, "."), "model_case": mlines[k]})
             if b0 == 0 and k < 2:
                 run.sample({"scenario": config_text(c), "events": c["events"][:6], "first_outputs": cs["raw"][:6]})
-    abmd_part(run, r, runner, 40 if quick else 800)
-    hist_part(run, r, runner, 40 if quick else 800)
-    manifold_part(run, r, runner, 60 if quick else 1200)
+    abmd_part(run, r, runner, 40 if quick else 2000)
+    hist_part(run, r, runner, 40 if quick else 2500)
+    manifold_part(run, r, runner, 60 if quick else 3000)
     run.cov["correspondence"].update({"scenarios": len(cases), "regression_scenarios": len(wit)})
 
 
